@@ -1,4 +1,4 @@
+import IpcHub.Drv.MediaScript
 namespace IpcHub.Drv.C03
-/-- placeholder: no model built for this property yet -/
-def handle (_ : List String) : String := "bad-op"
+def handle : List String → String := IpcHub.Drv.MediaScript.handle
 end IpcHub.Drv.C03
